@@ -89,3 +89,13 @@ def f30_simplify_overlapping_groups(f) -> bool:
     v = (f.case or {}).get("violated", [])
     return "simplify" in (c.get("rewrites") or []) and bool(v) and all(
         "rewrite simplify" in x and "already exists in the pipeline (`NestedPipeFunc_" in x for x in v)
+
+
+def f47_lazy_disk_cache_without_front(f) -> bool:
+    """A lazy pipeline whose disk cache has no in-memory front (with_lru_cache=False): every hit unpickles a fresh copy
+    of the deferred node, so a node reached through two cache hits is evaluated once per copy."""
+    if f.check != "lazy-equals-eager":
+        return False
+    c = _case(f)
+    return c.get("sequential") and c.get("cache") == "disk-nofront" and \
+        "disk cache without an in-memory front" in str(f.what) and "invoked more than once" in str(f.what)
